@@ -65,10 +65,11 @@ def impl(case):
     with contextlib.redirect_stdout(io.StringIO()):
         world = _tup(w(*[pix[:, i] for i in range(n)], with_bounding_box=False))
         world = [np.array(x, dtype=float) for x in world]
+        bad_ax = case.get("bad_axis", 0) % len(world)       # the world axis that carries the NaN / infinity
         for i in case.get("nan_at", []):
-            world[0][i] = np.nan
+            world[bad_ax][i] = np.nan
         for i, sgn in case.get("inf_at", []):
-            world[0][i] = sgn * np.inf
+            world[bad_ax][i] = sgn * np.inf
         res = {"world": [[_c(v) for v in x] for x in world]}
         kw = {}
         if case["fill"] is not None:
@@ -81,6 +82,14 @@ def impl(case):
             raw = _tup(w.invert(*world, with_bounding_box=False))
             res["raw"] = [[_c(v) for v in np.asarray(x, dtype=float)] for x in raw]
             if case["path"] == "iterative":
+                # the other modes of the solver (the fallback that recovers divergent points runs only in some of them): the masking
+                # claim is the same in each
+                modes = {}
+                for nm_, md in (("noadapt", {"adaptive": False}), ("nodiv", {"detect_divergence": False}),
+                                ("noadapt_nodiv", {"adaptive": False, "detect_divergence": False})):
+                    r_ = _tup(w.invert(*world, **kw, **md))
+                    modes[nm_] = [[_c(v) for v in np.asarray(x, dtype=float)] for x in r_]
+                res["inv_modes"] = modes
                 # does the solver itself report non-convergence for this batch?  (its accuracy is C05's subject, not C04's)
                 try:
                     w.numerical_inverse(*world, with_bounding_box=False, quiet=False)
@@ -169,6 +178,15 @@ def oracle(case, res):
             want = inside
             if res["in_image"][k] != want:
                 out.append(("in_image", "in_image(%s path) is %s for the image of pixel %s, box %s" % (case["path"], res["in_image"][k], p, box)))
+    for nm_, inv_m in (res.get("inv_modes") or {}).items():
+        for k in range(npts):
+            if k in case.get("nan_at", []) or k in [i for i, _s in case.get("inf_at", [])] or not masking:
+                continue
+            got = [inv_m[i][k] for i in range(len(case["pix"][k]))]
+            if got != [_c(fill)] * len(got) and not all(g == "nan" for g in got) and not _inside(box, [C.w2f(g) for g in got]):
+                out.append(("mask", "iterative inversion (masking on, solver mode %s) of the image of pixel %s returned %s, which is outside the box %s and not the fill value %r" %
+                            (nm_, case["pix"][k], [_d(g) for g in got], box, fill)))
+                break
     if "in_image_err" in res:
         out.append(("in_image_raise", "in_image raised %s" % res["in_image_err"]))
     elif "in_image" in res:
@@ -258,7 +276,7 @@ def gen(rng, tier):
             pts.append(pt)
         yield {"wcs": "affine", "path": "analytic", "ab": ab, "box": box, "pix": pts, "fill": rng.choice([None, None, -1.0, 0.0, float("inf")]),
                "withbb": rng.choice([None, None, True, False]), "nan_at": [rng.randrange(7)] if rng.random() < 0.4 else [],
-               "inf_at": [[rng.randrange(7), rng.choice([-1, 1])]] if rng.random() < 0.15 else []}
+               "inf_at": [[rng.randrange(7), rng.choice([-1, 1])]] if rng.random() < 0.15 else [], "bad_axis": rng.randrange(dim)}
     for _ in range(30 if q else 1200):
         distort = rng.random() < 0.7
         p = S.gen_params(rng, distortion=distort, aligned=True)
@@ -281,6 +299,9 @@ def gen(rng, tier):
                 d = rng.uniform(0.01, 60) if rng.random() < 0.6 else rng.uniform(500, 9000)
                 pts.append({"l": [x0 - d, rng.uniform(y0, y1)], "r": [x1 + d, rng.uniform(y0, y1)],
                             "b": [rng.uniform(x0, x1), y0 - d], "t": [rng.uniform(x0, x1), y1 + d]}[side])
+        # far off the corners (where the fixed-point iteration diverges and the fallback solver takes over)
+        for _p in range(2):
+            pts.append([rng.choice([x0 - 1, x1 + 1]) + rng.choice([-1, 1]) * rng.uniform(1500, 9500), rng.choice([y0 - 1, y1 + 1]) + rng.choice([-1, 1]) * rng.uniform(1500, 9500)])
         yield {"wcs": "sky", "path": "iterative" if distort else "analytic", "params": p, "box": p["bbox"], "pix": pts,
                "fill": rng.choice([None, None, -1.0, 0.0, 99.5]), "withbb": rng.choice([None, None, True, False]),
-               "nan_at": [rng.randrange(6)] if rng.random() < 0.4 else []}
+               "nan_at": [rng.randrange(6)] if rng.random() < 0.4 else [], "bad_axis": rng.randrange(2)}
